@@ -239,7 +239,41 @@ func runC13(p *core.Prog, r *core.Report) {
 				}
 			}
 		})
-		r.Check(okAbove, "C13.R3", "followingRange/above-last", "indexes above LastIndex() yield no segment", "guard `idx > LastIndex() → nil` not found", p.Pos(fr.Pos()))
+		if !okAbove {
+			// equivalent form on block numbers: no segment unless the segment's lower bound is strictly below the exclusive end
+			// (`end <= idx*interval → nil`, possibly under `end != 0`)
+			endF := core.FieldOf(p.Named(pkgBlock, "Segmenter"), "exclusiveEndBlock")
+			var lows []ssa.Value
+			for _, c := range core.FindInstrs(fr, core.IsCallTo(p.FuncObj(pkgBlock, "NewRange"))) {
+				lows = append(lows, c.(ssa.CallInstruction).Common().Args[0])
+			}
+			isLow := func(v ssa.Value) bool {
+				for _, l := range lows {
+					if sameExpr(core.SkipConv(v), core.SkipConv(l), 3) {
+						return true
+					}
+				}
+				return false
+			}
+			isEnd := func(v ssa.Value) bool { f, _ := core.LoadedField(v); return f == endF }
+			core.Instrs(fr, func(in ssa.Instruction) {
+				ifi, ok := in.(*ssa.If)
+				if !ok {
+					return
+				}
+				_, onF, ok := core.CondRelation(ifi.Cond, isLow, isEnd)
+				if !ok || onF != core.OrdLT {
+					return
+				}
+				tb := ifi.Block().Succs[0]
+				if ret, ok := tb.Instrs[len(tb.Instrs)-1].(*ssa.Return); ok {
+					if k, ok := ret.Results[0].(*ssa.Const); ok && k.IsNil() {
+						okAbove = true
+					}
+				}
+			})
+		}
+		r.Check(okAbove, "C13.R3", "followingRange/above-last", "indexes above LastIndex() yield no segment (guard idx > LastIndex() → nil, or equivalently lower bound >= exclusive end → nil)", "no guard returning nil for every index whose segment would start at or after the exclusive end", p.Pos(fr.Pos()))
 	})
 
 	// ---- R4 alignment idiom in the block package
